@@ -179,6 +179,20 @@ def o6(W, ob):
         ob.check(not (set(adj) & reach), 'handle_rollback_and_save|save-after-rollback',
                  'the save comes after the rollback step', 'adjust_gamestate can run after the per-call save',
                  where(h, h.blocks[sb].term.line))
+    # the last-saved frame handed to the sparse check is read after the rollback (which may save and so move it)
+    from .world import Effects
+    E = Effects(W)
+    for t in [t for t in h.calls() if callee_matches(t.callee, P2P + '::check_last_saved_state')]:
+        src = trace_back(W, h, t.args[1], strict=True)
+        ok_src = bool(src) and src[0] == 'call' and callee_matches(src[1].callee, SL + '::last_saved_frame')
+        stale = None
+        if ok_src:
+            stale = stale_between(W, h, src[1].bb, t.bb, 'self.sync_layer.last_saved_frame', E)
+        ob.check(ok_src and stale is None, 'handle_rollback_and_save|fresh-last-saved',
+                 'check_last_saved_state receives last_saved_frame() as it is after the rollback step',
+                 'check_last_saved_state receives a last-saved frame that %s' % (
+                     ('was read before `%s`, which may move last_saved_frame (a stale value triggers a second rollback from the wrong frame)' % stale) if stale else 'is not SyncLayer::last_saved_frame()'),
+                 where(h, t.line))
     rb_ = W.fn(P2P + '::advance_rollback_frame')
     must_precede(W, ob, rb_, P2P + '::handle_rollback_and_save', SL + '::synchronized_inputs', 'O6', first_mode='direct',
                  what='handle_rollback_and_save (save) precedes the new-frame simulation')
@@ -201,6 +215,19 @@ def o6(W, ob):
                 nons.append(sb)
                 # guard: i >= 1 and nothing stronger on i
                 ok1 = every_disjunct_has(g, lambda a: a[0] == 'lin' and len(a[1]) == 1 and 'iter' in a[1][0][0] and a[2] == 1 and a[3] is None)
+                # "whenever": nothing else may condition the save (iteration / saving-mode / the assertions made before the loop excepted)
+                def allowed(a):
+                    if a[0] == 'is' or a == ('bool', 'self.sparse_saving', False):
+                        return True
+                    if a[0] == 'lin' and len(a[1]) == 1 and 'iter' in a[1][0][0]:
+                        return True
+                    if a[0] == 'lin' and a[2] == a[3] == 0 and any('tuple{' in k for k, _ in a[1]):
+                        return True   # assert_eq!(current_frame(), frame_to_load) before the loop
+                    if a[0] == 'lin' and all(k in ('arg2', 'self.sync_layer.last_saved_frame') for k, _ in a[1]):
+                        return True   # assert!(frame_to_load <= first_incorrect)
+                    return False
+                extra = [a for c in g for a in c if not allowed(a)]
+                ok1 = ok1 and not extra
                 ob.check(ok1, '%s|resim-save' % short(f.path),
                          'every resimulated frame except the one just loaded is saved before it is stepped',
                          'the resimulation save is not guarded by exactly `i >= 1`: ' + dnf_str(g)[:300],
